@@ -1,20 +1,21 @@
 """C01 — every operation yields a structurally well-formed file (sequences of operations)"""
 import numpy as np
+from fractions import Fraction
 
 from .. import lib, pfile
-from . import c02, c03, c10
+from . import c02, c03, c06, c10
 
 ID = 'C01'
-LEAN_MODULE = 'PncProofs.C01Files'      # imports PncProofs.C01
+LEAN_MODULE = 'PncProofs.C01Seq'      # imports PncProofs.C01Files (which imports PncProofs.C01) and PncProofs.C06
 LEAN_FILE = 'PncProofs/C01.lean'
-MORE_LEAN_FILES = ['PncProofs/C01Files.lean']
+MORE_LEAN_FILES = ['PncProofs/C01Files.lean', 'PncProofs/C01Seq.lean']
 NAMESPACE = 'Props.C01'
 LEAN_CONE = ['PncModel.Arr', 'PncModel.NsStep', 'PncModel.Generated.NamespaceOrder', 'PncModel.File', 'PncModel.Ioapi', 'PncProofs.FiberLemmas', 'PncProofs.C03', 'PncProofs.ArrLemmas', 'PncProofs.C01',
-             'PncProofs.C02', 'PncProofs.C04', 'PncProofs.ZipLemmas', 'PncProofs.StackLemmas', 'PncProofs.SliceLemmas', 'PncProofs.C01Files']
+             'PncProofs.C02', 'PncProofs.C04', 'PncProofs.ZipLemmas', 'PncProofs.StackLemmas', 'PncProofs.SliceLemmas', 'PncProofs.C01Files', 'PncProofs.NamesLemmas', 'PncProofs.C06', 'PncProofs.C01Seq']
 LEMMA_FILES = ['PncProofs/StackLemmas.lean', 'PncProofs/SliceLemmas.lean', 'PncProofs/ZipLemmas.lean']
 REQUIRED_THEOREMS = ['build_hasShape', 'mapCells_hasShape', 'zipCells_hasShape', 'mask_wf', 'insertDim_wf',
                      'rebuilt_shape', 'subset_wf', 'renameVar_wf', 'binop_wf', 'reorder_wf', 'removeSingleton_wf', 'renameDims_wf', 'renameDim_wf', 'apply_wf', 'applyAxes_spec',
-                     'stack_wf', 'slice_wf']
+                     'stack_wf', 'slice_wf', "slice_wf'", 'insertDim_wf_all', 'stackSelf_wf', 'evalInto_inv', 'step_inv', 'seq_inv', 'seq_wf']
 RULE = ('random files (as C02) x random sequences of 1-6 operations (copy, sliceDimensions, applyAlongDimensions, '
         'subsetVariables, renameVariable, renameDimension, renameDimensions (several at once: chains, swaps, equal targets), insertDimension, removeSingleton, reorderDimensions, '
         'stack with itself, file arithmetic with itself and with a dimension-permuted copy, mask) with in-domain arguments plus ~10% out-of-domain '
@@ -30,7 +31,7 @@ def _op(rng, st):
     dims, vs = st['dims'], st['vars']
     names = list(dims)
     k = rng.choice(['copy', 'slice', 'slice', 'apply', 'subset', 'renamevar', 'renamedim', 'renamedims', 'removesingleton',
-                    'insertdim', 'reorder', 'stackself', 'binopself', 'maskgt'])
+                    'insertdim', 'reorder', 'stackself', 'binopself', 'maskgt', 'eval'])
     bad = rng.random() < 0.08
     if k == 'copy' or not names:
         return ['copy']
@@ -82,6 +83,21 @@ def _op(rng, st):
         return ['stackself', rng.choice(names)]
     if k == 'binopself':
         return ['binopself', rng.choice(['add', 'sub'])]
+    if k == 'eval':
+        # `eval('T = expr', inplace=True)` over double variables that started with one dimension tuple (earlier steps may have
+        # renamed or removed them: then the name error is the answer of both sides); the target is new or one of them
+        fl = sorted(n for n in vs if st['dtype'].get(n) == 'd')
+        if not fl:
+            return ['copy']
+        a = rng.choice(fl)
+        same = [n for n in fl if vs[n] == vs[a]]
+        other = ['var', rng.choice(same)] if rng.random() < 0.7 else ['lit', str(Fraction(rng.randint(-4, 4), 2))]
+        e = ['bin', rng.choice(['add', 'sub', 'mul']), ['var', a], other]
+        if rng.random() < 0.3:
+            e = ['neg', e]
+        if bad:
+            e = ['bin', 'add', e, ['var', 'nosuchvar']]
+        return ['eval', rng.choice(['NEWV', 'NEWV', a, rng.choice(same)]), e]
     return ['maskgt', rng.choice([1001, 2003, 3002, 5])]
 
 
@@ -90,7 +106,8 @@ def _case(rng):
     for v in spec['vars']:
         if v['dtype'] == 'f':
             v['dtype'] = 'd'
-    st = dict(dims={d[0]: d[1] for d in spec['dims']}, vars={v['name']: v['dims'] for v in spec['vars']})
+    st = dict(dims={d[0]: d[1] for d in spec['dims']}, vars={v['name']: v['dims'] for v in spec['vars']},
+              dtype={v['name']: v['dtype'] for v in spec['vars']})
     ops = [_op(rng, st) for _ in range(rng.randint(1, 6))]
     if rng.random() < 0.15 and len(st['dims']) > 1:
         # harness-only last step (not sent to the model, judged by the well-formedness oracle): arithmetic with a
@@ -406,6 +423,8 @@ def _apply(f, op):
         return {'add': operator.add, 'mul': operator.mul}[op[1]](f, other)
     if k == 'maskgt':
         return f.mask(greater=op[1])
+    if k == 'eval':
+        return f.eval('%s = %s' % (op[1], c06._py(op[2])), inplace=True)
     raise ValueError(k)
 
 
@@ -449,6 +468,8 @@ def _tok(op):
         return 'insertdim@%s@%d@%d@%d@%s@%s' % (op[1], op[2], 1 if op[3] else 0, 1 if op[4] else 0, op[5] or '_', op[6] or '_')
     if k == 'reorder':
         return 'reorder@%s' % ('.'.join(op[1]) or '-')
+    if k == 'eval':
+        return 'eval@%s@%s' % (op[1], ','.join(c06._flat(op[2])))
     return '@'.join(str(x) for x in op)
 
 
@@ -482,7 +503,26 @@ def agree(case, out, res):
             return 'step %d (%s): impl raised %s (%s), model ok' % (i, case['ops'][i][0], st['err'], st.get('msg'))
         if not ms.startswith('ok '):
             return 'step %d (%s): model %s, impl returned' % (i, case['ops'][i][0], ms[:60])
-        d = pfile.diff_obs_numeric(ms[3:], st['obs'])
+        a, b = pfile.parse_obs(ms[3:]), pfile.parse_obs(st['obs'])
+        if case['ops'][i][0] == 'eval':
+            # the variables of the expression must still have one dimension tuple (a rename can put another variable under
+            # one of the names: numpy's stretching is not in the model)
+            if i > 0 and 'obs' in res['states'][i - 1]:
+                pv = pfile.parse_obs(res['states'][i - 1]['obs'])['vars']
+                if len({pv[n]["dims"] for n in c06._all_vars(case['ops'][i][2]) if n in pv}) > 1:
+                    return None
+        # which attributes the variable made by `eval` carries depends on the class of the array the expression gives and on
+        # numpy's propagation rules (C06: not specified): not compared, for it and for what it is renamed to
+        tainted = set()
+        for op in case['ops'][:i + 1]:
+            if op[0] == 'eval':
+                tainted.add(op[1])
+            elif op[0] == 'renamevar' and op[1] in tainted:
+                tainted.add(op[2])
+        for t in tainted:
+            if t in a['vars'] and t in b['vars']:
+                b['vars'][t]['attrs'] = a['vars'][t]['attrs']
+        d = pfile.diff_parsed_numeric(a, b)
         if d:
             return 'step %d (%s): %s' % (i, case['ops'][i][0], d)
     nmodel = len([op for op in case['ops'] if op[0] != 'binopperm'])
